@@ -36,6 +36,8 @@ class Syn:
         self.is_async = False
         self.is_gen = False
         self.operand_ctx = 0    # >0 while generating operands of operators/subscripts/calls/conditions
+        self.plain_ctx = 0      # >0: no nested scopes (lambda/comprehension) and no walrus (assignment-target subscripts)
+        self.excluded = 0       # shapes skipped because they are recorded findings (probed separately by C43)
 
     def pick(self, seq):
         return self.draw(st.sampled_from(list(seq)))
@@ -58,6 +60,9 @@ class Syn:
         if d >= self.max_depth:
             return self.atom()
         c = self.irange(0, 27)
+        if self.plain_ctx and c in (10, 15, 19):
+            self.excluded += 1
+            c = 0
 
         def e():
             return self.expr(d + 1)
@@ -126,7 +131,7 @@ class Syn:
             return "(await %s)" % e()
         if c == 23:
             self.kinds.add("deepnest")
-            n = self.pick([5, 20, 60, 90])
+            n = self.pick([5, 12, 20, 30])
             return "(" * n + e() + ")" * n
         if c == 24:
             self.kinds.add("longchain")
@@ -158,8 +163,6 @@ class Syn:
             parts.append("k%d=%s" % (self.irange(0, 3), self.expr(d + 1)))
         if self.chance(0.15):
             parts.append("**" + self.expr(d + 1))
-        elif self.chance(0.1):
-            parts.append("**{%s.real: %s}" % (self.name(), self.expr(d + 1)))
         return ", ".join(parts)
 
     def patom(self, d):
@@ -199,7 +202,11 @@ class Syn:
             self.names.append(v)
             return v
         if c == 3:
-            return "%s[%s]" % (self.name(), self.expr(2))
+            self.plain_ctx += 1
+            try:
+                return "%s[%s]" % (self.name(), self.expr(2))
+            finally:
+                self.plain_ctx -= 1
         if c == 4:
             return "%s.attr" % self.name()
         v1, v2 = self.fresh(), self.fresh()
@@ -227,8 +234,10 @@ class Syn:
             return [ind + "%s = %s" % (self.target(), rhs)]
         if c == 4:
             K.add("augassign")
-            return [ind + "%s %s %s" % (self.pick([self.name(), "%s[%s]" % (self.name(), e()), "%s.attr" % self.name()]),
-                                         self.pick(AUG_OPS), e())]
+            self.plain_ctx += 1
+            tgt = self.pick([self.name(), "%s[%s]" % (self.name(), e()), "%s.attr" % self.name()])
+            self.plain_ctx -= 1
+            return [ind + "%s %s %s" % (tgt, self.pick(AUG_OPS), e())]
         if c == 5:
             K.add("annassign")
             v = self.fresh()
@@ -356,7 +365,8 @@ class Syn:
             K.add("nonascii")
             v = self.pick(["é", "变量", "ﬁ", "µ", "ℌ", "x̃"])
             return [ind + "%s = %s" % (v, e()), ind + "print(%s)" % v]
-        return [ind + "%s = %s" % (self.target(), e())]
+        rhs = e()
+        return [ind + "%s = %s" % (self.target(), rhs)]
 
     def params(self):
         parts = []
@@ -413,8 +423,7 @@ class Syn:
     def classdef(self, ind, d):
         self.kinds.add("class")
         cname = self.fresh().upper()
-        bases = self.pick(["", "()", "(object)", "(Exception)", "(dict, metaclass=type)", "(*(), **{})",
-                           "(metaclass=(%s := type))" % self.fresh(), "(object, metaclass=[type for %s in (1,)][0])" % self.fresh()])
+        bases = self.pick(["", "()", "(object)", "(Exception)", "(dict, metaclass=type)", "(*(), **{})"])
         saved = (list(self.names), self.in_func, self.in_loop, self.is_async, self.is_gen)
         self.in_func, self.in_loop, self.is_async, self.is_gen = False, 0, False, False
         body = []
